@@ -128,7 +128,7 @@ void exec_op(int task, int idx, TaskCtx& ctx) {
     int n = snprintf(b, sizeof b, "S %d %d\n", task, idx);
     (void)!write(g_progress_fd, b, n);
   }
-  arm_watchdog(G.op_cpu_seconds);
+  arm_watchdog(std::max<long>(G.op_cpu_seconds, (long)c.i("wd", 0))); // bulk operations declare their own CPU budget
   Outcome o = run_op(c, ctx);
   arm_watchdog(0);
   // cross-build equality is promised for what a configuration enables; operations addressing a parameter set that
@@ -243,7 +243,7 @@ void server_loop(int req, int rsp) {
       G.forked = true;
       TaskCtx ctx;
       ctx.task = -2;
-      arm_watchdog(G.op_cpu_seconds);
+      arm_watchdog(std::max<long>(G.op_cpu_seconds, (long)c.i("wd", 0)));
       Outcome o = run_op(strip_env_faults(c), ctx);
       arm_watchdog(0);
       std::string sum = o.summary;
@@ -362,7 +362,7 @@ RunResult run_plan(const Plan& pin, const RunOpts& ro, Stats* stats) {
         if (!solo_via_server(p.tasks[t][i], so, sy)) {
           TaskCtx ctx;
           ctx.task = -2; // not a scheduled task: no yield decisions
-          arm_watchdog(G.op_cpu_seconds);
+          arm_watchdog(std::max<long>(G.op_cpu_seconds, (long)p.tasks[t][i].i("wd", 0)));
           so = run_op(strip_env_faults(p.tasks[t][i]), ctx);
           arm_watchdog(0);
           sy = (long)ctx.yields_total;
